@@ -41,6 +41,19 @@ class Deprecated:
 _simpleescapes = re.compile(r'(\\[^0-9a-fA-F])').sub
 
 
+def asciilower(x):
+    """lowercase character by character (a capital sigma has one lowercase
+    form whatever stands next to it) and never turn a non ASCII character
+    into an ASCII one: the Kelvin sign is no ``k``, CSS names are
+    case-insensitive in the ASCII range"""
+    if x.isascii():
+        return x.lower()
+    return ''.join(
+        c if ord(c) > 127 and any(ord(d) < 128 for d in c.lower()) else c.lower()
+        for c in x
+    )
+
+
 def normalize(x):
     r"""
     normalizes x, namely:
@@ -56,7 +69,7 @@ def normalize(x):
             return matchobj.group(0)[1:]
 
         x = _simpleescapes(removeescape, x)
-        return x.lower()
+        return asciilower(x)
     else:
         return x
 
